@@ -49,6 +49,20 @@ def js_round(x: float, ndigits: int = 0) -> float:
             return math.ceil(x * multiplier - 0.5) / multiplier
 
 
+def js_remainder(a: Union[int, float], b: Union[int, float]) -> Union[int, float]:
+    """JavaScript % operator: truncating remainder that takes the sign of the dividend."""
+    if b == 0 or math.isnan(a) or math.isnan(b) or math.isinf(a):
+        return float("nan")
+    if math.isinf(b):
+        return a
+    if isinstance(a, int) and isinstance(b, int):
+        r = abs(a) % abs(b)
+        if a < 0:
+            return -r if r else -0.0
+        return r
+    return math.fmod(a, b)
+
+
 @dataclass
 class ClosureCell:
     """A cell for closure variable - allows sharing between scopes."""
@@ -442,10 +456,7 @@ class VM:
             a = self.stack.pop()
             b_num = to_number(b)
             a_num = to_number(a)
-            if b_num == 0:
-                self.stack.append(float("nan"))
-            else:
-                self.stack.append(a_num % b_num)
+            self.stack.append(js_remainder(a_num, b_num))
 
         elif op == OpCode.POW:
             b = self.stack.pop()
